@@ -429,6 +429,8 @@ func init() {
 	intrinsics["(*reflect.rtype).String"] = func(it *Interp, fr *frame, args []Value) Value {
 		return mkStr(types.TypeString(it.rtypeArg(fr, args[0]).t, func(p *types.Package) string { return p.Name() }))
 	}
+	// time.quote only decorates error messages (it re-encodes every rune of the offending input)
+	intrinsics["time.quote"] = func(it *Interp, fr *frame, args []Value) Value { return args[0] }
 	intrinsics["reflect.ValueOf"] = func(it *Interp, fr *frame, args []Value) Value {
 		return it.reflectValue(args[0].(Iface))
 	}
